@@ -278,6 +278,40 @@ def c05_second_wrap(a: int, b: int, boost: int) -> bool:
     return ok
 
 
+ROLE_WORDS = ["json_serialize", "from_deserialize", "collector_count", "upcast_all", "new_state", "budget_state", "preset_state",
+              "constructor_args", "deconstructor_log", "string_serializer", "display", "delete_item"]
+
+
+def c05_role_words(i: int, static: int, boost: int, ser: int) -> bool:
+    """
+    A method or static method whose NAME contains one of the words the generator uses for its own routine roles
+    (serialize, deserialize, collector, upcast, new, get_, set_, constructor, deconstructor ...) is still an ordinary
+    member: its call site's id reaches the routine that calls that member, with or without a serialize marker in the class.
+    pre: 0 <= i < len(ROLE_WORDS) and 0 <= static <= 1 and 0 <= boost <= 1 and 0 <= ser <= 1
+    post: _
+    """
+    i, static, boost, ser = pick(i, 0, len(ROLE_WORDS)), pick(static, 0, 2), pick(boost, 0, 2), pick(ser, 0, 2)
+    with concrete():
+        name = ROLE_WORDS[i]
+        member = ("static double %s(int a);" if static else "double %s(int a) const;") % name
+        text = ms.PRELUDE + "namespace top { virtual class ClsA { ClsA(); %s %s int after() const; }; class ClsB { ClsB(); void %s(double x); }; }" % (
+            member, "void serialize() const;" if ser else "", name)
+        problems = []
+        try:
+            files, cpp = ms.run_toolbox(text, boost=bool(boost))
+            problems = ms.check_dispatch(files, cpp, None, ("top",), None, bool(boost))
+            sites = [s_ for s_ in ms.dispatch_tables(files, cpp)[0]]
+            if len([f for f in files if f.endswith("ClsA.m")]) != 1:
+                problems.append("no classdef file for ClsA")
+            elif ("%s" % name) not in files[[f for f in files if f.endswith("ClsA.m")][0]]:
+                problems.append("ClsA.m has no member %s" % name)
+        except Exception as ex:
+            problems.append("raised %r" % ex)
+        ok = not problems or _fail(text=text, problems=problems[:6])
+    reached({"name": ROLE_WORDS[i], "static": static, "boost": boost, "ser": ser})
+    return ok
+
+
 def conds(tier):
     q = tier == "quick"
     t = (lambda x, y: x) if q else (lambda x, y: y)
@@ -285,6 +319,8 @@ def conds(tier):
     return [
         xh.Cond(M, "c05_second_wrap", t(200, 600), kind="shape-bounded", examples=["a=0, b=1, boost=0", "a=2, b=1, boost=1", "a=3, b=0, boost=1", "a=1, b=3, boost=0"],
                 bounds="%d ordered pairs of different interface files wrapped by one wrapper object x serialization: the toolbox of the second call" % (len(SECOND_TEXTS) * (len(SECOND_TEXTS) - 1))),
+        xh.Cond(M, "c05_role_words", t(240, 600), path_timeout=60, kind="shape-bounded", examples=["i=0, static=0, boost=0, ser=0", "i=1, static=1, boost=1, ser=1", "i=5, static=0, boost=1, ser=0"],
+                bounds="%d member names containing the generator's own role words x method / static x serialization x serialize marker" % len(ROLE_WORDS)),
         xh.Cond(M, "c05_one_class", t(420, 3000), path_timeout=60, kind="shape-bounded", examples=["code=101, boost=1, ser=1, nsdepth=1", "code=383, boost=0, ser=0, nsdepth=2"],
                 bounds="all %d class shapes%s" % (NC, " x both serialization settings x serialize marker (namespace depth derived)" if not q else "; serialization / marker / namespace depth derived from the shape code")),
         xh.Cond(M, "c05_overload_groups", t(420, 1800), path_timeout=60, kind="shape-bounded", examples=["role=0, i=2, j=0, k=3, nsdepth=0", "role=0, i=0, j=1, k=3, nsdepth=0", "role=0, i=3, j=4, k=5, nsdepth=1", "role=0, i=1, j=3, k=5, nsdepth=0", "role=1, i=7, j=8, k=0, nsdepth=0", "role=0, i=8, j=7, k=3, nsdepth=1", "role=2, i=0, j=7, k=8, nsdepth=0", "role=3, i=7, j=2, k=8, nsdepth=0", "role=1, i=0, j=1, k=4, nsdepth=1", "role=3, i=5, j=2, k=6, nsdepth=2", "role=2, i=6, j=1, k=0, nsdepth=0"],
